@@ -1,4 +1,5 @@
 import IdModel.Jose.Jws
+import IdModel.Jose.Verifier
 import Driver.Util
 import Driver.C11
 namespace Driver.C01
@@ -53,7 +54,29 @@ def parseSig (t : String) : Option SigMembers :=
     | _, _, _ => none
   | _ => none
 
+/-- `vfy d=.. alg=.. kty=.. crv=<hex|~> x=<len|bad|~> y=<len|bad|~> sl=<n> P=<curves|~> S=<curves|~> K=.. G=..` -/
+def vfy (args : List String) : String :=
+  let get (k : String) : Option String := args.findSome? fun a => if a.startsWith (k ++ "=") then some (a.drop (k.length + 1)).toString else none
+  let len (t : String) : Option (Option Nat) := if t == "bad" || t == "~" then some none else t.toNat?.map some
+  match get "d", get "alg", get "kty", get "crv", get "x", get "y", get "sl", get "P", get "S" with
+  | some d, some alg, some kty, some crv, some x, some y, some sl, some p, some sg =>
+    let kty? : Option Verifier.Kty :=
+      if kty == "okp" then some .okp else if kty == "ec" then some .ec else if kty == "rsa" then some .rsa else if kty == "oct" then some .oct else none
+    let crv? : Option String := if crv == "~" then some "" else (unhex crv).map fun b => String.ofList (b.map Char.ofNat)
+    let d? : Option Verifier.Disp := if d == "ed" then some .ed else if d == "ec" then some .ec else none
+    match d?, kty?, crv?, len x, len y, sl.toNat? with
+    | some d, some kty, some crv, some xl, some yl, some n =>
+      -- a key type without `x` / `crv` never gets past the key-type guard; the x of an OKP / EC key that is absent cannot be
+      -- built by the generator
+      let pts := if p == "~" then [] else p.splitOn ","
+      let sgs := if sg == "~" then [] else sg.splitOn ","
+      let c : Verifier.Crypto := ⟨fun cv => pts.contains cv, fun cv => sgs.contains cv⟩
+      if Verifier.accepts d alg ⟨kty, crv, xl, yl⟩ n c then "ok" else "rejected"
+    | _, _, _, _, _, _ => "bad-request"
+  | _, _, _, _, _, _, _, _, _ => "bad-request"
+
 def handle : List String → String
+  | "vfy" :: rest => vfy rest
   -- the library's own verifiers on really signed tokens: the theorems hand the scheme exactly the received signature bytes;
   -- a sound scheme accepts those bytes only if they are the signature that was made (any other byte string is refused)
   | ["real", _alg, v] => if v == "valid" then "verified" else "rejected"
